@@ -1,3 +1,3 @@
 SPECIFICATION Spec
-INVARIANTS LineOK FrameOK
+INVARIANTS LineOK FrameOK StopsAtError
 CHECK_DEADLOCK FALSE
